@@ -46,12 +46,14 @@ type realCtl struct {
 	indexer cache.Indexer
 	pending []*proxyv1alpha1.UpstreamCluster
 	seen    map[*clusters.ClusterInfo]bool
-	rv      int
+	st      *stamper
 }
 
-func newRealCtl(global string) *realCtl {
+func newRealCtl(global string) *realCtl { return newRealCtlStamped(global, false) }
+
+func newRealCtlStamped(global string, stamp bool) *realCtl {
 	indexer := cache.NewIndexer(cache.MetaNamespaceKeyFunc, cache.Indexers{})
-	return &realCtl{ctl: controllers.VerifC11NewController(indexer, global), indexer: indexer, seen: map[*clusters.ClusterInfo]bool{}}
+	return &realCtl{ctl: controllers.VerifC11NewController(indexer, global), indexer: indexer, seen: map[*clusters.ClusterInfo]bool{}, st: newStamper(stamp)}
 }
 
 func (r *realCtl) track() {
@@ -69,18 +71,19 @@ func (r *realCtl) stop() {
 	}
 }
 
-func (r *realCtl) write(o WObj) {
-	r.rv++
-	obj := o.Real(fmt.Sprint(r.rv))
+func (r *realCtl) write(o WObj) (WObj, *proxyv1alpha1.UpstreamCluster) {
+	e, obj := r.st.write(o)
+	defer func() { r.pending = append(r.pending, obj) }()
 	if _, exists, _ := r.indexer.GetByKey(o.Name); exists {
 		r.indexer.Update(obj) //nolint
 	} else {
 		r.indexer.Add(obj) //nolint
 	}
-	r.pending = append(r.pending, obj)
+	return e, obj
 }
 
 func (r *realCtl) delete(name string) {
+	r.st.forget(name)
 	if old, exists, _ := r.indexer.GetByKey(name); exists {
 		r.indexer.Delete(old) //nolint
 		r.pending = append(r.pending, old.(*proxyv1alpha1.UpstreamCluster))
@@ -163,9 +166,11 @@ func runCtl(c *rig.Ctx, cs Case) verdict {
 		}
 	}
 	u := universeOf(objs, cs.Probes)
-	real := newRealCtl(cs.Global)
+	real := newRealCtlStamped(cs.Global, cs.Stamp)
 	defer real.stop()
 	latest := map[string]WObj{}
+	latestObj := map[string]*proxyv1alpha1.UpstreamCluster{}
+	effOps := map[int]WObj{}
 	var steps []ctlObs
 	var lateJudge *verdict
 	for k, op := range cs.Ops {
@@ -173,11 +178,12 @@ func runCtl(c *rig.Ctx, cs Case) verdict {
 		var ord []string
 		switch op.Op {
 		case "write":
-			real.write(*op.Obj)
-			latest[op.Obj.Name] = *op.Obj
+			e, obj := real.write(*op.Obj)
+			latest[op.Obj.Name], latestObj[op.Obj.Name], effOps[k] = e, obj, e
 		case "delete":
 			real.delete(op.Name)
 			delete(latest, op.Name)
+			delete(latestObj, op.Name)
 		case "deliver":
 			name := ""
 			if op.Item >= 0 && op.Item < len(real.pending) {
@@ -246,8 +252,8 @@ func runCtl(c *rig.Ctx, cs Case) verdict {
 					fresh := newRealCtl(cs.Global)
 					var item *proxyv1alpha1.UpstreamCluster
 					for _, m := range ctlClusters {
-						if o, ok := latest[m]; ok {
-							obj := o.Real("1")
+						if o, ok := latestObj[m]; ok {
+							obj := o.DeepCopy()
 							fresh.indexer.Add(obj) //nolint
 							if m == n {
 								item = obj
@@ -280,7 +286,11 @@ func runCtl(c *rig.Ctx, cs Case) verdict {
 	for k, op := range cs.Ops {
 		switch op.Op {
 		case "write":
-			ops = append(ops, map[string]interface{}{"op": "write", "obj": op.Obj.Model()})
+			mo := *op.Obj
+			if e, ok := effOps[k]; ok {
+				mo = e
+			}
+			ops = append(ops, map[string]interface{}{"op": "write", "obj": mo.Model()})
 		case "delete":
 			ops = append(ops, map[string]interface{}{"op": "delete", "name": rig.Hex(op.Name)})
 		default:
@@ -385,7 +395,7 @@ func runCtl(c *rig.Ctx, cs Case) verdict {
 
 // genCtl: a script for the controller.
 func genCtl(r *rand.Rand, raw bool) (Case, []string) {
-	cs := Case{Mode: "ctl", Global: rig.Pick(r, []string{"", "remote"}), Probes: genProbes(r)[:5]}
+	cs := Case{Mode: "ctl", Global: rig.Pick(r, []string{"", "remote"}), Probes: genProbes(r)[:5], Stamp: r.Intn(4) != 0}
 	labels := []string{}
 	cur := map[string]*WObj{}
 	var history []WObj
@@ -422,9 +432,17 @@ func genCtl(r *rand.Rand, raw bool) (Case, []string) {
 					}
 				}
 				o.Name = name
+				o.Via = ""
 				if r.Intn(3) == 0 {
 					small(&o)
 					labels = append(labels, "ctl-aliases-changed")
+				}
+				if r.Intn(7) == 0 {
+					// status write: stored spec kept, annotations replaced, generation not bumped
+					o = p.clone()
+					o.Ann = genAnn(r)
+					o.Via = "status"
+					labels = append(labels, "ctl-status-write-changes-annotations")
 				}
 			} else {
 				o = genObj(r, name, raw)
